@@ -60,11 +60,14 @@ const (
 	stEntry  = "entry"  // a key of that map, read together with its value
 	stView   = "view"   // the result of X.Map(), only usable as mmap[key]
 	stSets   = "sets"   // the three results (outerRings, innerRings, pointsAndLines [][][2]float64) = ringSets
+	stCMap   = "cmap"   // map[int][][2]float64 read through its sorted keys: the entries in increasing key order
+	stCKeys  = "ckeys"  // maps.Keys of such a map (usable for ranging once sort.Ints has been applied)
+	stCEntry = "centry" // a key of such a map, read together with its value
 )
 
 var sgCoq = map[string]string{stInt: "Z", stBool: "bool", stPt: "pt", stPts: "(list pt)", stInts: "(list Z)",
 	stRings: "(list (list pt))", stPtPtr: "(option pt)", stIPair: "(Z * Z)%type", stSeqmap: "seqmap",
-	stEntry: "(list pt * (Z * Z))%type", stSets: "ringSets"}
+	stEntry: "(list pt * (Z * Z))%type", stSets: "ringSets", stCMap: "complete", stCEntry: "(Z * list pt)%type"}
 
 // helpers of snap.go whose whole body is a panic: the error value of the model
 var sgPanics = map[string]string{"panicNoPointsFoundForVertices": "NoPointsFound"}
@@ -88,12 +91,13 @@ type sgVal struct {
 }
 
 type sgEnv struct {
-	order []string
-	vars  map[string]string
-	made  map[string]bool   // locals created by make and not aliased since
-	deref map[string]string // pointer variables known to be non-nil here -> the name of the value they point to
-	mapOf map[string]string // mmap := X.Map()  ->  X
-	keyOf map[string]string // for _, key := range X.Keys()  ->  X
+	order    []string
+	vars     map[string]string
+	made     map[string]bool   // locals created by make and not aliased since
+	deref    map[string]string // pointer variables known to be non-nil here -> the name of the value they point to
+	mapOf    map[string]string // mmap := X.Map()  ->  X
+	keyOf    map[string]string // for _, key := range X.Keys()  ->  X
+	rangeVar map[string]bool   // the variable of the innermost enclosing range loop
 }
 
 func (e *sgEnv) clone() *sgEnv {
@@ -104,7 +108,7 @@ func (e *sgEnv) clone() *sgEnv {
 	for k, v := range e.deref {
 		c.deref[k] = v
 	}
-	c.mapOf, c.keyOf = map[string]string{}, map[string]string{}
+	c.mapOf, c.keyOf, c.rangeVar = map[string]string{}, map[string]string{}, e.rangeVar
 	for k, v := range e.mapOf {
 		c.mapOf[k] = v
 	}
@@ -154,6 +158,8 @@ type sg struct {
 	dedup         bool              // the constructs of kmpDeduplicate / RemoveSequences are enabled
 	cleanup       bool              // cleanupNewRing: splitRing as the model's, (hitMultiple, ringIdx) as isMulti
 	multiParams   [2]string         // the names of the two parameters that together are isMulti
+	splitTail     bool              // the classification part of splitRing
+	sortedKeys    map[string]bool   // key slices on which sort.Ints has been called
 	cur           *sgSig
 	n             int
 	loopN         int
@@ -247,8 +253,8 @@ func (g *sg) expr(env *sgEnv, x ast.Expr, binds *[]string) (sgVal, error) {
 			if t == stOpaque {
 				return sgVal{}, fmt.Errorf("the parameter %s may only be passed to a panic helper", x.Name)
 			}
-			if t == stView {
-				return sgVal{}, fmt.Errorf("%s (the result of Map()) may only be indexed", x.Name)
+			if t == stView || t == stCMap || t == stCKeys {
+				return sgVal{}, fmt.Errorf("%s may only be indexed / ranged over", x.Name)
 			}
 			return sgVal{code: "v_" + x.Name, ty: t}, nil
 		}
@@ -347,6 +353,13 @@ func (g *sg) expr(env *sgEnv, x ast.Expr, binds *[]string) (sgVal, error) {
 				return sgVal{}, fmt.Errorf("%s[..] is only supported with a key ranging over the Keys() of the same sorted map", id.Name)
 			}
 			return sgVal{code: "(snd v_" + k.Name + ")", ty: stIPair}, nil
+		}
+		if id, ok := x.X.(*ast.Ident); ok && env.vars[id.Name] == stCMap {
+			k, ok := x.Index.(*ast.Ident)
+			if !ok || env.vars[k.Name] != stCEntry || env.keyOf[k.Name] != id.Name {
+				return sgVal{}, fmt.Errorf("%s[..] is only supported with a key ranging over its sorted keys", id.Name)
+			}
+			return sgVal{code: "(snd v_" + k.Name + ")", ty: stPts}, nil
 		}
 		a, err := g.expr(env, x.X, binds)
 		if err != nil {
@@ -668,6 +681,12 @@ func (g *sg) call(env *sgEnv, x *ast.CallExpr, binds *[]string) (sgVal, error) {
 		ty, err := g.goType(x.Args[0])
 		if err != nil {
 			return sgVal{}, err
+		}
+		if ty == stRings && g.splitTail {
+			if lit, ok := x.Args[1].(*ast.BasicLit); !ok || lit.Value != "0" {
+				return sgVal{}, fmt.Errorf("make([][][2]float64, n) with n other than 0")
+			}
+			return sgVal{code: "(@nil (list pt))", ty: stRings}, nil
 		}
 		if ty != stInts && !(ty == stPts && g.dedup) {
 			return sgVal{}, fmt.Errorf("make of %s", ty)
@@ -1101,7 +1120,7 @@ func (g *sg) assign(env *sgEnv, s *ast.AssignStmt, rest []ast.Stmt, k lcont, ctx
 				}
 				sty := env.vars[t.Name]
 				el, isSlice := sgElem(sty)
-				if !isSlice || (sty != stInts && !g.dedup) || sty == stRings {
+				if !isSlice || (sty != stInts && !g.dedup) || (sty == stRings && !g.splitTail) {
 					return "", fmt.Errorf("append to %s", sty)
 				}
 				v, err := g.expr(env, c.Args[1], &lines)
@@ -1128,6 +1147,23 @@ func (g *sg) assign(env *sgEnv, s *ast.AssignStmt, rest []ast.Stmt, k lcont, ctx
 				}
 				return sgJoin(lines, body), nil
 			}
+		}
+	}
+	// keys := maps.Keys(M)
+	if g.splitTail && len(s.Rhs) == 1 && s.Tok == token.DEFINE {
+		if c, ok := s.Rhs[0].(*ast.CallExpr); ok && types.ExprString(c.Fun) == "maps.Keys" && len(c.Args) == 1 {
+			m, ok1 := c.Args[0].(*ast.Ident)
+			t, ok2 := s.Lhs[0].(*ast.Ident)
+			_, shadow := env.vars["maps"]
+			if !ok1 || !ok2 || env.vars[m.Name] != stCMap || shadow || g.pkgs["maps"] != "golang.org/x/exp/maps" {
+				return "", fmt.Errorf("unsupported maps.Keys")
+			}
+			if _, exists := env.vars[t.Name]; exists || t.Name == "_" {
+				return "", fmt.Errorf(":= of the existing variable %s is not supported", t.Name)
+			}
+			env2.vars[t.Name] = stCKeys // in no particular order until sort.Ints
+			env2.mapOf[t.Name] = m.Name
+			return g.stmts(env2, rest, k, ctx)
 		}
 	}
 	// mmap := X.Map()
